@@ -43,7 +43,7 @@ ASSUMPTIONS = [
     "chirp_length (extra, USB2 7.1.7.5 TUCH >= 1 ms) is only asserted when bus_busy was low since the reset was reported",
 ]
 BOUNDS = "quick: constants B K=26 all inputs free (two assertion families), constants A K=43 with the reset and the " \
-         "device chirp scripted in cycles 0..12 and every input free from cycle 13, constants A K=80 free from cycle 37 (after a scripted clean handshake), constants A K=68 free from cycle 43 after a scripted aborted handshake (2 pairs + timeout); thorough: constants B K=44 and " \
+         "device chirp scripted in cycles 0..12 and every input free from cycle 13, constants A K=80 free from cycle 37 (after a scripted clean handshake), constants A K=76/68 free from cycle 43 after a scripted aborted handshake (1/2 valid pairs + timeout); thorough: constants B K=44 and " \
          "constants A K=50 all free, A K=56 free from cycle 13, A K=84 free from cycle 37 (after a scripted clean " \
          "handshake) and from cycle 43 after an aborted handshake of 1 or 2 pairs (after a scripted " \
          "handshake); static audit of the real constants"
@@ -373,11 +373,12 @@ def queries(tier):
                   covers=["reset_hs", "suspend_hs", "hs_resume"], layer=_prefix_layer(37), split=False, timeout=600,
                   desc="constants A, layer: scripted clean reset + HS handshake in cycles 0..36, every input free from cycle "
                        "37: HS reset vs suspend discrimination, restriction during the window, resume from HS suspend"),
-            Query("bmc_A_second_k2", fa, 68, asserts=["hs_entry_pairs", "hs_entry_chirp"], covers=["second_chirp"],
-                  layer=_aborted_handshake_layer(2), split=False, timeout=600,
-                  desc="constants A, layer: first reset with a host chirp aborted after 2 valid pairs and the 2.5 ms timeout "
-                       "scripted in cycles 0..42, every input free from cycle 43: state left over from the failed handshake "
-                       "must not count in the next bus reset"),
+            *[Query(f"bmc_A_second_k{k}", fa, 84 - 8 * k, asserts=["hs_entry_pairs", "hs_entry_chirp"], covers=["second_chirp"],
+                    layer=_aborted_handshake_layer(k), split=False, timeout=600,
+                    desc=f"constants A, layer: first reset with a host chirp aborted after {k} valid pair(s) and the 2.5 ms "
+                         "timeout scripted in cycles 0..42, every input free from cycle 43: state left over from the failed "
+                         "handshake must not count in the next bus reset")
+              for k in (1, 2)],
             Query("cosim_A", fa, 0, kind="cosim", cosim_cycles=150),
             Query("cosim_B", fb, 0, kind="cosim", cosim_cycles=150),
         ]
